@@ -43,6 +43,20 @@ def run(chk):
             chk.fail("whitened training data do not have zero mean", ctx)
         if not np.allclose(np.cov(Y.T).reshape(D, D), np.eye(D), atol=max(1e-8, tol)):
             chk.fail("whitened training data do not have identity sample covariance", dict(ctx, cov=hexlist(np.cov(Y.T))))
+        # the pseudo-inverse variant on full-rank data whose features have widely different units (covariance condition number ~1e8):
+        # every direction is real signal, the result is the same whitening
+        if i % 4 == 2 and D >= 2:
+            Xs = X * np.concatenate([[2e-4], np.ones(D - 1)])
+            Wi = np.asarray(Whitening().fit(Xs).weights)
+            wp = Whitening(pinv=True).fit(Xs)
+            Yp = np.asarray(wp.transform(Xs))
+            conds = float(np.linalg.cond(np.cov(Xs.T).reshape(D, D)))
+            chk.count(1, key=("whiten-pinv", D))
+            if not np.allclose(np.cov(Yp.T).reshape(D, D), np.eye(D), atol=max(1e-6, 1e-10 * conds)):
+                chk.fail("Whitening(pinv=True) on full-rank data with widely different feature units does not give identity sample covariance",
+                         {"X": hexlist(Xs), "shape": [N, D], "cov": hexlist(np.cov(Yp.T)), "pinv": True})
+            elif not np.allclose(np.asarray(wp.weights), Wi, rtol=1e-5, atol=1e-9 * conds * np.abs(Wi).max()):
+                chk.fail("Whitening(pinv=True) differs from Whitening() on full-rank data", {"X": hexlist(Xs), "shape": [N, D], "pinv": True})
         parts = gen.random_composition(r, N, 3)
         wd = Whitening().fit(da.from_array(X, chunks=(tuple(parts), (D,))))
         Wd, mud = np.asarray(wd.weights), np.asarray(wd.input_subtract)
@@ -53,6 +67,8 @@ def run(chk):
         # ---------------- WCCN
         K = r.choice([1, 2, 3, 4])
         per = [r.choice([D + 2, D + 4]) for _ in range(K)]
+        if K >= 2 and i % 3 == 1:
+            per[r.randrange(K)] = 1                       # a class with a single sample: no scatter of its own, but it is a class
         g = gen.nprng(r)
         Xc = np.vstack([gen_full_rank(r, n, D) + g.normal(size=D) * 3 for n in per])
         base = np.repeat(np.arange(K), per)
@@ -114,5 +130,5 @@ def run(chk):
     bad, info = cq.run_cases("C14c", IMPORTS, "wc_case", "wc_check", cterms, shard=100)
     chk.correspondence("WCCN.fit ~ NF.wccn_fit on the samples grouped by label", len(cterms), bad, info)
     return chk.finish(
-        rule="full-rank data D<=4; whitening N = D+2..3D+7; WCCN K<=4 classes of D+2/D+4 samples, rows shuffled, labels 0..K-1 / shifted / negative / "
+        rule="full-rank data D<=4; whitening N = D+2..3D+7; WCCN K<=4 classes of D+2/D+4 samples (every third case with a single-sample class), Whitening(pinv=True) on ill-scaled full-rank data, rows shuffled, labels 0..K-1 / shifted / negative / "
              "non-contiguous / permuted ids; NumPy and Dask row chunks; tolerances scaled by the condition number; distinct = (whiten,D,N) | (wccn,D,K,label kind)")
